@@ -82,8 +82,10 @@ impl<T: Value> ErasedObserver for InternalObserver<T> {
                     .num_active_observers
                     .set(state.num_active_observers.get() - 1);
                 self.state.set(Unlinked);
-                let mut ouh = self.on_update_handlers.borrow_mut();
-                ouh.clear();
+                // (dropped outside the borrow: what a handler captured may unsubscribe a token
+                // of this very observer when it is dropped)
+                let ouh = std::mem::take(&mut *self.on_update_handlers.borrow_mut());
+                drop(ouh);
             }
             InUse => {
                 state
@@ -124,7 +126,10 @@ impl<T: Value> ErasedObserver for InternalObserver<T> {
             Disallowed | Unlinked => Ok(()),
             Created | InUse => {
                 // delete from the list in either case
-                let mut removed = self.on_update_handlers.borrow_mut().remove(&token).is_some();
+                let handler = self.on_update_handlers.borrow_mut().remove(&token);
+                let mut removed = handler.is_some();
+                // (dropped outside the borrow, see disallow_future_use)
+                drop(handler);
                 if !removed && self.running_handler.get() == Some(token) {
                     // a handler unsubscribing itself: run_all will not put it back
                     self.running_handler.set(None);
